@@ -29,7 +29,7 @@ type PluginRecipe struct {
 
 // Behaviour of a step handler for one call (looked up by nonce).
 type Behaviour struct {
-	Kind    string `json:"kind"` // ok, alt, error, undeclared, baddata, panic
+	Kind    string `json:"kind"` // ok, alt, error, empty, undeclared, baddata, emptybad-*, panic
 	SleepMs int    `json:"sleep_ms,omitempty"`
 }
 
@@ -101,6 +101,14 @@ func errorScope() *schema.ScopeSchema {
 	}))
 }
 
+// emptyScope is an output without properties ("done, nothing to report").
+func emptyScope() *schema.ScopeSchema {
+	return schema.NewScopeSchema(schema.NewObjectSchema("Empty", map[string]*schema.PropertySchema{}))
+}
+
+// emptyBadKinds are the handler behaviours that return non-conforming data for the property-less output.
+var emptyBadKinds = []string{"emptybad-nil", "emptybad-string", "emptybad-extra", "emptybad-int"}
+
 func altScope() *schema.ScopeSchema {
 	return schema.NewScopeSchema(schema.NewObjectSchema("AltOut", map[string]*schema.PropertySchema{
 		"nonce": schema.NewPropertySchema(schema.NewStringSchema(nil, nil, nil), nil, true, nil, nil, nil, nil, nil),
@@ -135,6 +143,7 @@ func BuildPlugin(pr *PluginRecipe, rec *Recorder) *schema.CallableSchema {
 			"success": schema.NewStepOutputSchema(BuildScope(&sr.Input), disp("success"), false),
 			"error":   schema.NewStepOutputSchema(errorScope(), disp("error"), true),
 			"alt":     schema.NewStepOutputSchema(altScope(), nil, false),
+			"empty":   schema.NewStepOutputSchema(emptyScope(), disp("nothing to report"), false),
 		}
 		handler := func(ctx context.Context, tok *Token, in any) (string, any) {
 			rt.Yield(siteHandler)
@@ -157,6 +166,17 @@ func BuildPlugin(pr *PluginRecipe, rec *Recorder) *schema.CallableSchema {
 				return "alt", map[string]any{"nonce": nonce, "count": "not a number"}
 			case "panic":
 				panic("handler panic for " + nonce)
+			case "empty":
+				return "empty", map[string]any{}
+			// data that an output without properties must still reject
+			case "emptybad-nil":
+				return "empty", nil
+			case "emptybad-string":
+				return "empty", "not an object"
+			case "emptybad-extra":
+				return "empty", map[string]any{"undeclared": int64(1)}
+			case "emptybad-int":
+				return "empty", int64(7)
 			}
 			return "success", in
 		}
